@@ -11,6 +11,9 @@ from .vloop import FakeProc, VirtualLoop
 
 logging.getLogger("gwf.backends.local").setLevel(logging.CRITICAL + 1)
 logging.getLogger("asyncio").setLevel(logging.CRITICAL + 1)
+import warnings  # noqa: E402
+
+warnings.filterwarnings("ignore", category=RuntimeWarning, message="coroutine .* was never awaited")
 
 NOWHERE = "/nonexistent-gwfverif-dir"
 
@@ -153,3 +156,185 @@ def drive(item):
     finally:
         run.close()
     return {"id": rid, "cores": scn["cores"], "events": events, "logs": logs}
+
+
+# --------------------------------------------------------------------------
+# the server layer (C14): real Server.handle_connection coroutines fed by hand
+
+
+class FakeWriter:
+    def __init__(self):
+        self.buf = b""
+        self.closed = False
+
+    def write(self, data):
+        self.buf += data
+
+    async def drain(self):
+        return None
+
+    def close(self):
+        self.closed = True
+
+    async def wait_closed(self):
+        return None
+
+    def take(self):
+        lines = [ln for ln in self.buf.split(b"\n") if ln]
+        self.buf = b""
+        return lines
+
+
+class Conn:
+    def __init__(self, run, server):
+        import json as _json
+
+        self.json = _json
+        self.run = run
+        self.reader = asyncio.StreamReader(loop=run.loop)
+        self.writer = FakeWriter()
+        self.task = run.loop.create_task(server.handle_connection(self.reader, self.writer))
+        run.loop.idle()
+
+    def send_raw(self, data, eof=False):
+        if data:
+            self.reader.feed_data(data)
+        if eof:
+            self.reader.feed_eof()
+        self.run.loop.idle()
+        return self.writer.take()
+
+    def request(self, kind, **msg):
+        lines = self.send_raw((self.json.dumps(dict(__kind__=kind, **msg)) + "\n").encode())
+        out = []
+        for ln in lines:
+            try:
+                out.append(self.json.loads(ln))
+            except ValueError:
+                out.append({"__kind__": "unparseable"})
+        return out
+
+    @property
+    def dead(self):
+        return self.task.done()
+
+
+BAD_KINDS = [
+    "empty", "notjson", "array", "number", "string", "nokind", "unknownkind", "enq_missing", "cancel_unknown",
+    "cancel_nonint", "invalid_utf8", "overlong", "partial_eof", "eof", "close", "state_unknown",
+]
+
+
+def bad_payload(kind, n):
+    import json as _json
+
+    J = lambda **k: (_json.dumps(k) + "\n").encode()  # noqa: E731
+    return {
+        "empty": (b"\n", False),
+        "notjson": (b"hello world\n", False),
+        "array": (b"[1, 2, 3]\n", False),
+        "number": (b"5\n", False),
+        "string": (b'"enqueue_task"\n', False),
+        "nokind": (J(name="x", script="task 0"), False),
+        "unknownkind": (J(__kind__="frobnicate"), False),
+        "enq_missing": (J(__kind__="enqueue_task", name="x", working_dir="/tmp", deps=[]), False),
+        "cancel_unknown": (J(__kind__="cancel_task", tid=n + 50), False),
+        "cancel_nonint": (J(__kind__="cancel_task", tid="abc"), False),
+        "invalid_utf8": (b"\xff\xfe{\n", False),
+        "overlong": (b"{" + b"x" * 70000 + b"\n", False),
+        "partial_eof": (b'{"__kind__": "enqueue_task", "name": "x"', True),
+        "eof": (b"", True),
+        "close": (J(__kind__="close"), False),
+        "state_unknown": (J(__kind__="get_task_state", tid=n + 50), False),
+    }[kind]
+
+
+def drive_server(item):
+    """Like drive(), but every pool operation goes through the wire protocol on one of two
+    healthy client connections while a third client misbehaves as generated."""
+    rid, scn = item
+    run = PoolRun(scn["cores"])
+    server = run.local.Server(run.sched)
+    events = []
+    healthy = [Conn(run, server), Conn(run, server)]
+    bad = [None]
+    k = [0]
+
+    def hc():
+        k[0] += 1
+        return healthy[k[0] % 2]
+
+    def states_event():
+        rep = hc().request("get_task_states")
+        ok = len(rep) == 1 and rep[0].get("__kind__") == "task_states"
+        tasks = rep[0]["tasks"] if ok else {}
+        return {"e": "ReqStates", "reply": tasks if ok else {"0": "NO-REPLY"}, "count": len(tasks) if ok else -1, "obs": run.observe()}
+
+    try:
+        for e in list(scn["ev"]) + [{"e": "Enqueue", "deps": [], "limit": 0, "attrs": [], "fresh": True}, {"e": "States"}]:
+            kind = e["e"]
+            rec = None
+            if kind == "Enqueue":
+                c = Conn(run, server) if e.get("fresh") else hc()
+                deps = sorted(d for d in e["deps"] if d < run.n)
+                attrs = list(e["attrs"])
+                name = "task%d" % run.n
+                if "logfails" in attrs:
+                    os.makedirs(os.path.join(run.wd, ".gwf", "logs", name + ".stdout"), exist_ok=True)
+                msg = dict(name=name, script="task %d" % run.n, working_dir=NOWHERE if "startfails" in attrs else run.wd, deps=deps)
+                if e["limit"]:
+                    msg["time_limit"] = e["limit"]
+                rep = c.request("enqueue_task", **msg)
+                tid = rep[0].get("tid", -1) if len(rep) == 1 and rep[0].get("__kind__") == "task_enqueued" else -1
+                if tid == run.n or tid == -1:
+                    pass
+                rec = {"e": "ReqEnqueue", "deps": deps, "limit": e["limit"], "attrs": attrs, "reply": tid, "t": run.n}
+                if len(run.sched.task_states) > run.n:
+                    run.n += 1
+            elif kind == "Cancel":
+                if e["t"] < run.n:
+                    hc().request("cancel_task", tid=e["t"])
+                    rec = {"e": "ReqCancel", "t": e["t"]}
+            elif kind == "States":
+                events.append(states_event())
+                continue
+            elif kind == "Bad":
+                if bad[0] is None or bad[0].dead:
+                    bad[0] = Conn(run, server)
+                data, eof = bad_payload(e["kind"], run.n)
+                bad[0].send_raw(data, eof)
+                rec = {"e": "Bad", "kind": e["kind"], "conn_dead": bad[0].dead}
+            elif kind == "BadEnq":
+                c = Conn(run, server)
+                bk = e["kind"]
+                msg = dict(name="task%d" % run.n, script="task %d" % run.n, working_dir=run.wd, deps=[])
+                if bk == "enq_extra":
+                    msg["bogus"] = [1, 2]
+                elif bk == "enq_unknown_dep":
+                    msg["deps"] = [run.n + 40]
+                elif bk == "enq_deps_str":
+                    msg["deps"] = "abc"
+                elif bk == "enq_limit_str":
+                    msg["time_limit"] = "abc"
+                rep = c.request("enqueue_task", **msg)
+                tid = rep[0].get("tid", -1) if len(rep) == 1 and rep[0].get("__kind__") == "task_enqueued" else -1
+                attrs = {"enq_extra": [], "enq_limit_str": ["badlimit"]}.get(bk, ["baddeps"])
+                rec = {"e": "BadEnq", "kind": bk, "attrs": attrs, "reply": tid, "t": run.n}
+                if len(run.sched.task_states) > run.n:
+                    run.n += 1
+            elif kind in ("Exit", "Tick"):
+                rec = run.apply(e)
+            if rec is not None:
+                rec["obs"] = run.observe()
+                events.append(rec)
+        for _ in range(200):
+            alive = [t for t, p in run.procs.items() if p.returncode is None]
+            rec = run.apply({"e": "Exit", "t": alive[0], "rc": 0}) if alive else run.apply({"e": "Tick"})
+            if rec is None:
+                break
+            events.append(rec)
+        events.append(states_event())
+        logs = {str(t): "ok" for t in range(run.n)}
+    finally:
+        run.close()
+    return {"id": rid, "cores": scn["cores"], "events": events, "logs": logs, "server": True}
